@@ -56,17 +56,20 @@ class IdleHandshakeHandler(Elaboratable):
         ctrl_word = self.sink.ctrl
 
         # Capture the previous data word; so we have a record of eight consecutive signals.
+        # Only valid words carry symbols: gaps in the stream (e.g. left by SKP removal) neither count
+        # as idle nor break a run of idle. Out of reset, we haven't seen any idle yet.
         last_word = Signal.like(data_word)
-        last_ctrl = Signal.like(ctrl_word)
-        m.d.ss += [
-            last_word.eq(data_word),
-            last_ctrl.eq(ctrl_word),
-        ]
+        last_ctrl = Signal.like(ctrl_word, init=0b1111)
+        with m.If(self.sink.valid):
+            m.d.ss += [
+                last_word.eq(data_word),
+                last_ctrl.eq(ctrl_word),
+            ]
 
         # Logical idle descrambles to the raw data value zero; so we only need to validate that
         # the last and current words are both zeroes.
         last_word_was_idle   = (last_word == 0) & (last_ctrl == 0)
-        current_word_is_idle = (data_word == 0) & (ctrl_word == 0)
+        current_word_is_idle = self.sink.valid & (data_word == 0) & (ctrl_word == 0)
         m.d.comb += [
             self.idle_detected  .eq(last_word_was_idle & current_word_is_idle)
         ]
